@@ -242,9 +242,11 @@ fn check_after_failure_here(m1: &Message<'static>, wf: &[WAns], rf: Option<usize
     let mut tape = vec![];
     let mut rscript = vec![];
     if let Some(j) = rf {
-        // m1's reply line, cut short by a hard error
-        tape.extend_from_slice(&ref_encode(3, 4, &[0x0F], true));
-        rscript = vec![RAns::Deliver(usize::MAX); j];
+        // m1's reply is cut short: only its first j bytes ever arrive, then the port reports a timeout; the next thing
+        // on the wire is the complete reply to m2
+        let line1 = ref_encode(3, 4, &[0x0F], true);
+        tape.extend_from_slice(&line1[..j.min(line1.len() - 1)]);
+        rscript = vec![RAns::Deliver(1); j.min(line1.len() - 1)];
         rscript.push(RAns::Fail(io::ErrorKind::TimedOut));
     }
     let start2 = tape.len();
@@ -269,8 +271,9 @@ fn check_after_failure_here(m1: &Message<'static>, wf: &[WAns], rf: Option<usize
         let cls = if e2.written.ends_with(&want) && e2.written.len() > want.len() { "stale-bytes-before-the-frame" } else if e2.written.starts_with(&want) { "extra-bytes-after-the-frame" } else { "different-bytes" };
         out.push(("writes-exactly-the-frame", format!("after-failure:{}", cls), format!("{}: port received {} but the frame is {}", desc, show_bytes(&e2.written[..e2.written.len().min(80)]), show_bytes(&want[..want.len().min(40)]))));
     }
-    if rf.is_none() {
-        // nothing was read during the failed exchange, so the input is intact and exchange 2 must be perfectly normal
+    {
+        // the bytes of the cut-off reply are gone with the failed exchange; what follows on the wire is a complete line,
+        // so exchange 2 must be perfectly normal
         if reply_due(m2) {
             let line_end = start2 + line2.len();
             match ref_parse(line2) {
@@ -282,7 +285,7 @@ fn check_after_failure_here(m1: &Message<'static>, wf: &[WAns], rf: Option<usize
                 }
                 _ => {}
             }
-        } else if !matches!(e2.result, Ok(None)) || e2.tape_pos_after != 0 {
+        } else if !matches!(e2.result, Ok(None)) || e2.tape_pos_after != start2 {
             out.push(("reads-iff-reply-due", "after-failure".into(), format!("{}: returned {:?}, consumed {} input bytes", desc, e2.result.as_ref().map(|o| o.as_ref().map(|x| msg_str(x))), e2.tape_pos_after)));
         }
     }
@@ -380,7 +383,7 @@ fn run_pass(ctx: &Ctx) -> Report {
         let mut v = vec![];
         for (i, m) in msgs.iter().enumerate() {
             let k = match m {
-                Message::SendData(_, d) => format!("SendData{}", d.get().len().min(17)),
+                Message::SendData(_, d) => format!("SendData{}", match d.get().len() { 0 => 0, 1 => 1, 2..=16 => 2, _ => 3 }),
                 other => kind_name(other).to_string(),
             };
             if seen.insert(k) && v.len() < 14 {
@@ -398,7 +401,7 @@ fn run_pass(ctx: &Ctx) -> Report {
                 sjobs.push((i1, Some(w), None, i2));
             }
             if reply_due(&msgs[i1]) {
-                for j in [0usize, 1, 5, 12] {
+                for j in [0usize, 1, 2, 5, 12, 14] {
                     sjobs.push((i1, None, Some(j), i2));
                 }
             }
